@@ -100,8 +100,8 @@ def history_package(rng, gated: set) -> dict:
         "def uses_alias(x: SubOne, y: SubTwo) -> SubThree: ...\n"
     )
     files["src/pk/other_mod.py"] = (
-        "from typing import Literal\nfrom pathlib import Path\nfrom fractions import Fraction\nfrom pk.base_mod import SubOne, _PrivBase\n\n\n"
-        "class Far(_PrivBase):\n    def far_own(self, f: Fraction, p: Path) -> None: ...\n\n\n"
+        "from typing import Literal\nfrom pathlib import Path\nfrom fractions import Fraction\nfrom logging.handlers import SocketHandler, QueueHandler\nfrom wsgiref.handlers import SimpleHandler\nfrom pk.base_mod import SubOne, _PrivBase\n\n\n"
+        "class Far(_PrivBase):\n    def far_own(self, f: Fraction, p: Path) -> None: ...\n\n    def same_last_segment(self, a: SocketHandler, b: SimpleHandler, c: QueueHandler) -> None: ...\n\n\n"
         "def twice(a: Literal[7] | None, b: Literal[7] | None, *args: Literal[7] | None) -> SubOne: ...\n"
     )
     return files
